@@ -965,6 +965,35 @@ func main() {
 		contains(fsd, `if t\.T == tMAP \{ err := fetchStructDesc\(t\.K\) if err != nil \{ return err \} return fetchStructDesc\(t\.V\) \} if t\.T == tLIST \|\| t\.T == tSET \{ return fetchStructDesc\(t\.V\) \} if t\.T != tSTRUCT \|\| t\.Sd != nil \{ return nil \} sd, err := newStructDescAndPrefetch\(t\.RT\) if err != nil \{ return err \} t\.Sd = sd buildLinked = append\(buildLinked, t\) return nil`) &&
 		contains(psd, `for i := range d\.fields \{ f := d\.fields\[i\] switch f\.Type\.T \{ case tSTRUCT, tMAP, tLIST, tSET: if err := fetchStructDesc\(f\.Type\); err != nil \{ return err \} \} \} return nil`)
 	w("  buildProtocol := %v\n", proto)
+	// the type-node cache of TypeKey.lean: key = (annotation text, Go type), lookup before build, store
+	// right after allocation; `Type.String()` prints what the model's tyChars prints
+	tstr := findMethod(df, "Type", "String")
+	var keyDecl ast.Node
+	for _, f := range rf.sorted() {
+		for _, d := range f.Decls {
+			if gd, ok := d.(*ast.GenDecl); ok && gd.Tok == token.TYPE {
+				for _, sp := range gd.Specs {
+					if ts := sp.(*ast.TypeSpec); ts.Name.Name == "ttypesK" {
+						keyDecl = ts
+					}
+				}
+			}
+		}
+	}
+	nttF := findFunc(rf, "newTType")
+	keyOK := keyDecl != nil && contains(keyDecl, `^ttypesK struct \{ T string S reflect\.Type \}$`) &&
+		contains(nttF, `\{ k := ttypesK\{T: x\.String\(\), S: x\.S\} if t := ttypes\[k\]; t != nil \{ return t \} t := &tType\{\} ttypes\[k\] = t `) &&
+		contains(tstr, `switch t\.T \{ case T_bool: return "bool" case T_i8: return "i8" case T_double: return "double" case T_i16: return "i16" case T_i32: return "i32" case T_i64: return "i64" case T_string: return "string" case T_struct: return t\.S\.Name\(\) case T_map: return fmt\.Sprintf\("map<%s:%s>", t\.K\.String\(\), t\.V\.String\(\)\) case T_set: return fmt\.Sprintf\("set<%s>", t\.V\.String\(\)\) case T_list: return fmt\.Sprintf\("list<%s>", t\.V\.String\(\)\) case T_enum: return "enum" case T_binary: return "binary" case T_pointer: return "\*" \+ t\.V\.String\(\) default:`)
+	nKeyUses := 0
+	for _, f := range rf {
+		ast.Inspect(f, func(n ast.Node) bool {
+			if ie, ok := n.(*ast.IndexExpr); ok && src(ie.X) == "ttypes" {
+				nKeyUses++
+			}
+			return true
+		})
+	}
+	w("  typeNodeCacheKeyed := %v\n", keyOK && nKeyUses == 2)
 	// the unknown-field index of UnknownIdx.lean, statement by statement
 	ufAdd := findMethod(rf, "unknownFields", "Add")
 	ufReset := findMethod(rf, "unknownFields", "Reset")
